@@ -51,7 +51,7 @@ func main() {
 		fmt.Printf("CHECKER-ERROR unknown property %q (have %v)\n", *prop, rules.IDs())
 		os.Exit(2)
 	}
-	os.Exit(run(pr, *tier, only, !*noEv && only == ""))
+	os.Exit(run(pr, *tier, only, !*noEv && only == "" && os.Getenv("HZ_NOEVIDENCE") == ""))
 }
 
 func flagSet(name string) bool {
